@@ -529,6 +529,87 @@ func c08Rollover(chk *fw.Check, c *c08Cast) (n int) {
 	return
 }
 
+// c08InterruptedDownload: the download of a refresh breaks off in the middle of the list of entries; by the time the
+// loader tries again the distribution point publishes the next issue (same layout, the same four serials in another
+// order) and - like any static file server - answers byte-range requests. Signature validation is off (none) or only
+// logged (verify_log), so nothing but the loader stands between a mixture of two issues and the store: what is in force
+// afterwards names all four serials (either issue does), never the head of one issue joined to the tail of the other.
+func c08InterruptedDownload(chk *fw.Check, c *c08Cast) (n int) {
+	old := world.SimpleCRL(c.p.CA, 5, 101, 105, 102, 103).DER()
+	// (the length of an ECDSA signature varies by an octet or two: the first later issue as long as the old one)
+	var next []byte
+	for number := int64(6); number < 60 && len(next) != len(old); number++ {
+		next = world.SimpleCRL(c.p.CA, number, 102, 103, 101, 105).DER()
+	}
+	if len(old) != len(next) {
+		panic("c08 cast: no later issue of the same length")
+	}
+	cut := bytes.Index(old, []byte{0x02, 0x01, 102}) - 2 // the start of the third entry
+	if cut <= 0 {
+		panic("c08 cast: third entry not found")
+	}
+	want := "REVOKED,REVOKED,REVOKED,REVOKED,OK"
+	for _, disk := range []bool{false, true} {
+		for _, mode := range []config.SignatureValidationMode{config.SignatureValidationModeNone, config.SignatureValidationModeVerifyLog} {
+			n++
+			disk, mode := disk, mode
+			label := fmt.Sprintf("interrupted-download-while-the-next-issue-is-published sig=%d %s", mode, be(disk))
+			res := seqWorld(func() {
+				w := NewCW(CWOpt{Disk: disk, SigMode: mode})
+				defer os.RemoveAll(w.Dir)
+				if err := w.Provision(); err != nil {
+					panic(err)
+				}
+				vsched.Drain()
+				w.Net.Serve(urlA, "issue-5", old)
+				w.Lookup(c.probes[0], c.chain(c.probes[0]))
+				vsched.Drain()
+				if got := c.probeAll(w); got != want {
+					chk.Violation("C08|interrupted-download|first-load", fmt.Sprintf("%s: probes [%s], expected [%s]", label, got, want), nil)
+					return
+				}
+				attempt, from, ranged := 0, 0, 0
+				w.Net.Routes[urlA] = &world.Behaviour{Label: "breaks-off-then-next-issue",
+					Fn: func(req *httpRequestAlias, body []byte) (int, []byte, error) {
+						attempt++
+						from = 0
+						if r := req.Header.Get("Range"); attempt > 1 && strings.HasPrefix(r, "bytes=") && strings.HasSuffix(r, "-") {
+							fmt.Sscanf(r, "bytes=%d-", &from)
+							if from > 0 && from < len(next) {
+								ranged++
+								return 206, nil, nil
+							}
+							from = 0
+						}
+						return 200, nil, nil
+					},
+					Stream: func() io.ReadCloser {
+						if attempt == 1 {
+							return &brokenBody{data: old[:cut]}
+						}
+						return io.NopCloser(bytes.NewReader(next[from:]))
+					}}
+				w.Chk.VerifUpdateCRLs(true)
+				vsched.Drain()
+				if got := c.probeAll(w); got != want {
+					chk.Violation("C08|mixed-list-in-force|interrupted-download|"+be(disk), fmt.Sprintf("%s: after the refresh (%d attempts, %d answered as byte range) the probes read [%s]; either issue gives [%s]", label, attempt, ranged, got, want), nil)
+					return
+				}
+				w.Chk.VerifUpdateCRLs(true)
+				vsched.Drain()
+				if got := c.probeAll(w); got != want {
+					chk.Violation("C08|mixed-list-in-force|refresh-after-an-interrupted-download|"+be(disk), fmt.Sprintf("%s: after one more refresh the probes read [%s], expected [%s]", label, got, want), nil)
+				}
+				w.Chk.Cleanup()
+			})
+			if res.Verdict != vsched.OK {
+				chk.Violation("C08|"+res.Verdict.String()+"|interrupted-download", label+": "+firstLines(res.Detail, 5), nil)
+			}
+		}
+	}
+	return
+}
+
 // c08Mirror: a certificate names two distribution points. One refresh finds the first one down and is served by the
 // second (a mirror); afterwards the first one is back with the next list while the mirror still has the old one. A
 // successful refresh puts in force what the preferred (first) distribution point publishes - as it did before the outage.
@@ -654,6 +735,7 @@ func RunC08(tier string, args []string) int {
 	// signer roll-over and distribution-point fail-over histories (fixed histories, every step judged)
 	total.States += c08Rollover(chk, c)
 	total.States += c08Mirror(chk, c)
+	total.States += c08InterruptedDownload(chk, c)
 	// schedule half
 	bound, maxExec := 2, 300000
 	perScenario, nshards := 120*time.Second, 16
